@@ -388,6 +388,12 @@ func MetaDataKVHandler(resHolder *SearchResult, attrGetter AttributeGetter, addi
 					continue
 				}
 				mch, val := convertFilterValue(fs[i].SearchFilter)
+				if IsIntegerSearchOp(mch) != intPrimMatcher {
+					// the key holds the value in the form of the primary filter's
+					// kind only (plain or integer), the filter of the other kind
+					// is applied to the attribute itself below
+					continue
+				}
 				var matches bool
 				if IsIntegerSearchOp(mch) {
 					matches = fs[i].AutoMatch || intBytesMatch(primDBVal, mch, fs[i].Raw)
@@ -420,7 +426,7 @@ func MetaDataKVHandler(resHolder *SearchResult, attrGetter AttributeGetter, addi
 		}
 		// apply other filters
 		for i := range fs {
-			if !idIter && (i == 0 || fs[i].Header() == fs[0].Header()) { // 1st already checked
+			if !idIter && (i == 0 || fs[i].Header() == fs[0].Header() && IsIntegerSearchOp(fs[i].Operation()) == intPrimMatcher) { // already checked
 				continue
 			}
 			attr := fs[i].Header() // emptiness already prevented
